@@ -376,6 +376,18 @@ func (x *g) bodyField(m *spec.Message, taken map[string]bool, num int32) *spec.F
 	if x.has(FRules) && x.r.chance(1, 4) {
 		x.rules(f)
 	}
+	if x.has(FExamples) && f.Card == "" && x.r.chance(1, 3) {
+		switch f.Kind {
+		case "string":
+			f.Examples = []string{"ex-a", "ex b", "é"}
+		case "int32", "int64":
+			f.Examples = pick(x.r, [][]string{{"1", "2", "3"}, {"-7"}, {"12", "not-a-number"}})
+		case "bool":
+			f.Examples = []string{"true", "false"}
+		case "float", "double":
+			f.Examples = pick(x.r, [][]string{{"1.5", "2.25"}, {"1e3", "x"}})
+		}
+	}
 	return f
 }
 
